@@ -354,6 +354,41 @@ func main() {
 	})
 	r.Sample(map[string]any{"kind": "string", "tag": 2048, "len": 16384})
 
+	// --- EncodeRaw (re-emission of retained bytes): writes exactly the bytes given, at the cursor, and advances the
+	// cursor by their number; exercised alone, after another field and followed by a sentinel field (encodeExact)
+	rawLens := []int{0, 1, 2, 3, 127, 128, 16384}
+	ev.Parallel(len(rawLens), workers, func(s int) {
+		l := rawLens[s]
+		raw := make([]byte, l)
+		for i := range raw {
+			raw[i] = byte(i*13 + 0x81)
+		}
+		sc := newScratch(l + 32)
+		for _, before := range []bool{false, true} {
+			pred := l
+			if before {
+				pred += 2 // EncodeBool(2, true)
+			}
+			out, f := encodeExact(sc, pred, func(e *csproto.Encoder) {
+				if before {
+					e.EncodeBool(2, true)
+				}
+				e.EncodeRaw(raw)
+			})
+			id := fmt.Sprintf("raw/len=%d/after-field=%v", l, before)
+			if f == "" && !bytes.Equal(out[pred-l:], raw) {
+				f = "raw-bytes-not-written-verbatim"
+			}
+			if f != "" {
+				r.Fail("raw/"+f[:min(len(f), 40)], id, caseInfo{Kind: "raw", Val: fmt.Sprintf("len=%d", l), Msg: f})
+			}
+			cases.Add(1)
+			if l > 0 {
+				nontriv.Add(1)
+			}
+		}
+	})
+
 	// --- packed lists
 	plens := []int{0, 1, 2, 3, 15, 16, 17, 31, 32, 33, 127, 128, 129, 2048}
 	if r.Thorough() {
